@@ -429,6 +429,8 @@ const c11kindsModule = `module g { namespace "urn:g"; prefix g; import gi { pref
  container two2 { if-feature "f or h"; if-feature "sf"; } leaf two3 { if-feature "sf"; if-feature "f or h"; type string; } leaf two4 { if-feature "not f or h"; if-feature "sf or f"; if-feature "not (sf and h)"; type string; }
  choice ch3 { case a3 { leaf a3l { type string; } } case b3 { if-feature f; leaf b3l { type string; } } case z3 { uses grp; container z3c { leaf zz { if-feature h; type string; } leaf zk { type string; } } } }
  grouping grp2 { container gc { leaf in { type string; } } }
+ container box { choice kind { case wood { leaf knots { if-feature f; type string; } leaf w { type string; } } leaf short { if-feature h; type string; } case deep { choice inner { leaf il { if-feature f; type string; } leaf ik { type string; } } } } }
+ choice ch4 { case a4 { leaf a4g { if-feature f; type string; } leaf a4k { type string; } } }
  container ub { uses grp2 { augment "gc" { if-feature f; leaf ubl { type string; } } augment "gc" { if-feature "not f"; leaf ubn { type string; } } augment "gc" { leaf ubk { type string; } } } }
 }`
 
@@ -475,6 +477,9 @@ func c11kinds(c *core.Ctx) {
 				// refines and augments whose target a false feature left out have nothing to do; the others still apply
 				// cases and shorthand cases that an augment inside a uses adds to a choice
 				"/ua/ch/base/base": true, "/ua/ch/k": fOn, "/ua/ch/k/kl": fOn, "/ua/ch/sh": fOn, "/ua/ch/sh/sh": fOn, "/ua/ch/keep/keep": true, "/ua/ch/kh/khl": hOn, "/ua/ch/kh/khk": true,
+				// a guarded node inside a case that is written in place, a guarded shorthand case, a choice in a case
+				"/box/kind/wood/knots": fOn, "/box/kind/wood/w": true, "/box/kind/short": hOn, "/box/kind/short/short": hOn,
+				"/box/kind/deep/inner/il/il": fOn, "/box/kind/deep/inner/ik/ik": true, "/ch4/a4/a4g": fOn, "/ch4/a4/a4k": true,
 				"/rr/r1": !fOn, "/rr/r2": true, "/rr/rc": hOn, "/rr/rc/added": hOn, "/hc": hOn, "/hc/ha": hOn,
 			}
 			paths := make([]string, 0, len(expect))
@@ -492,7 +497,8 @@ func c11kinds(c *core.Ctx) {
 				}
 			}
 			// the nodes of a case are found by name from the node that holds the choice - exactly when they are there
-			for data, present := range map[string]bool{"k1l": fOn, "k2l": true, "b3l": fOn, "a3l": true, "zz": false, "ua/kl": fOn, "ua/sh": fOn, "ua/keep": true, "ua/khl": hOn, "ua/khk": true, "ua/base": true, "c1l": fOn} {
+			for data, present := range map[string]bool{"k1l": fOn, "k2l": true, "b3l": fOn, "a3l": true, "zz": false, "ua/kl": fOn, "ua/sh": fOn, "ua/keep": true, "ua/khl": hOn, "ua/khk": true, "ua/base": true, "c1l": fOn,
+				"box/knots": fOn, "box/w": true, "box/short": hOn, "box/il": fOn, "box/ik": true, "a4g": fOn, "a4k": true} {
 				c.Evaluations++
 				var got bool
 				if perr := safeDo(func() error { got = meta.Find(m, data) != nil; return nil }); perr != nil {
